@@ -114,3 +114,23 @@ fn c05_a_regex_that_does_not_compile_does_not_disable_the_rules_it_is_fused_with
     let req = Request::new("https://x.test/s", "https://news.example/", "script").unwrap();
     assert!(engine(&["/s/", "/)ds/"], true).check_network_request(&req).matched);
 }
+
+/// OBL C05.witness.large_groups
+#[test]
+fn c05_large_fusion_groups_lose_no_rule() {
+    // groups of 2, 3, 64, 65, 66, 129 and 200 rules that share their index token and their options (they fuse into one rule, or into
+    // however many the optimiser chooses): every member still answers for its own URL, and a URL of no member is not matched
+    for n in [2usize, 3, 64, 65, 66, 129, 200] {
+        let rules: Vec<String> = (0..n).map(|i| format!("/shared/zz{}q", i)).collect();
+        let refs: Vec<&str> = rules.iter().map(|s| s.as_str()).collect();
+        let plain = engine(&refs, false);
+        let optimised = engine(&refs, true);
+        for i in (0..n).chain([n, n + 7]) {
+            let url = format!("https://x.test/shared/zz{}q", i);
+            let req = Request::new(&url, "https://news.example/", "image").unwrap();
+            let (p, o) = (plain.check_network_request(&req).matched, optimised.check_network_request(&req).matched);
+            assert_eq!(p, i < n, "control: the unoptimised engine on {}", url);
+            assert_eq!(p, o, "a group of {} rules: {} is {} by the unoptimised engine and {} by the optimised one", n, url, if p { "blocked" } else { "allowed" }, if o { "blocked" } else { "allowed" });
+        }
+    }
+}
